@@ -346,3 +346,20 @@ ptrheap_free(struct ptrheap * H)
 	ptrlist_free(H->elems);
 	free(H);
 }
+
+#ifdef LIBCPERCIVA_VERIF
+/**
+ * ptrheap_verif_peek(H, i):
+ * Verification hook: return the element at position ${i} of the heap ${H},
+ * or NULL if there are not that many elements.
+ */
+void * ptrheap_verif_peek(struct ptrheap *, size_t);
+void *
+ptrheap_verif_peek(struct ptrheap * H, size_t i)
+{
+
+	if (i >= H->nelems)
+		return (NULL);
+	return (*ptrlist_get(H->elems, i));
+}
+#endif
